@@ -67,6 +67,7 @@ CATALOGUE = [
     {"rtl": "‮abc"},
     {"nl_key\n": 1},
     {"a": {"a": {"a": {"a": {"a": 1}}}}},
+    {"lone_surrogate": "half an emoji \ud83d"},
 ]
 DUR_SMALL = (0, 1, 2, 499, 500, 501, 999, 1000, 1001, 10 ** 6 - 1, 10 ** 6, 10 ** 6 + 1)
 DUR_MORE = DUR_SMALL + (123456, 86400 * 10 ** 6, 86400 * 10 ** 6 + 1, 30 * 86400 * 10 ** 6 - 1, 30 * 86400 * 10 ** 6, 2 ** 31, 2 ** 31 + 1, 2 ** 40 + 1, 2 ** 41 + 1, 3600 * 10 ** 6 + 7, 59_999_999, 7)
